@@ -771,11 +771,29 @@ def twin(req, plan):
             for x in req]
 
 
+def compilable(proj):
+    """the generated project itself compiles file by file: no program unit uses a module defined later in its own file"""
+    home = c22.home_of(proj)
+    rmap = {r['name']: r for r in proj['routines']}
+    byfile = {}
+    for u in proj['units']:
+        byfile.setdefault(u[0], []).append(u)
+    for us in byfile.values():
+        for i, u in enumerate(us):
+            later = {v[2] for v in us[i + 1:] if v[1] == 'mod'}
+            for k in u[3]:
+                r = rmap[f'r{k}']
+                used = {home[c] for c in r['calls'] if home.get(c)} | set(r['usev'])
+                if used & later:
+                    return False
+    return True
+
+
 def oracle_case(req, link=False):
     res, (proj, cfg, ops, plan) = run_case(req)
     if res['exc'] and res['exc'][0] == 'init':
         return []           # the scheduler cannot be built (cyclic file graph: C21/C22), nothing to check
-    probs = check_run(res, plan, ops, cfg, link=link)
+    probs = check_run(res, plan, ops, cfg, link=link and compilable(proj))
     if plan and not res['exc'] and all(o[0] in ('dup', 'rem') for o in ops):
         # planning and conversion must leave the same graph (the operations that have a planning implementation)
         other, _ = run_case(twin(req, False))
@@ -835,11 +853,12 @@ class C25(Prop):
                          'procedure items under their IR names, every call / USE / imported procedure in the written files is '
                          'defined in the build set, nothing defined or written twice, planning vs conversion graph',
                          'thorough tier: gfortran compiles and links the written files with a main program calling the seeds']
-    link = False
+    link = 99       # gfortran link for projects with at most this many routines: all in a replay and in the thorough tier,
+                    # in the quick tier only the small ones (corpus lines and small generated projects)
 
     def gen(self, rng, tier):
         nproj = {'quick': 14, 'thorough': 70, 'search': 40}.get(tier, 22)
-        self.link = tier == 'thorough'
+        self.link = 99 if tier == 'thorough' else 5
         for _ in range(nproj):
             proj = gen_project(rng)
             cfg = gen_config(rng, proj)
@@ -859,7 +878,8 @@ class C25(Prop):
         return response(res)
 
     def oracle(self, req):
-        return oracle_case(req, link=self.link)
+        nr = len(field([A('project')] + field(req, 'project'), 'routines'))
+        return oracle_case(req, link=nr <= self.link)
 
     def classes(self):
         return list(CLASSES)
